@@ -32,12 +32,54 @@ def build_cases(tier, seed):
     return cases
 
 
+# ---- a parameter hides a global whatever value it received, including "nothing" ----------------------------
+NOTHING_SCRIPTS = [
+    # (script, indices of printed items that must be equal, index that must be 7)
+    'define g begin return end define f with x begin println x end assign x 7 println [g] f [g] println x',
+    'define g begin on all end define f with x begin println x assign x 3 println x end assign x 7 println [g] f [g] println x',
+    'define g begin return end define h with x begin println x end define f with x begin h x end assign x 7 println [g] f [g] println x',
+]
+
+
+def nothing_worker(args):
+    """The result of a routine that returns nothing, passed as an argument whose parameter has the name of a global:
+    inside the routine the parameter shows what `println [g]` shows at top level, never the global's value."""
+    from bardolph.parser.parse import Parser
+    from bardolph.vm.machine import Machine
+    from vlib import world
+    res = report.WorkResult('a parameter that received nothing still hides the global')
+    world.start_function_trace()
+    res.sites.add('nothing-argument')
+    for text in NOTHING_SCRIPTS:
+        res.nontrivial += 1
+        net = world.configure()
+        world.uninstall_real_mode()
+        p = Parser()
+        if not p.parse(text):
+            res.violation('nothing|rejected', 'rejected: %s\n  script: %s' % (p.get_errors().strip(), text), inputs={'script': text}, replayed=True)
+            continue
+        m = Machine()
+        m.reset()
+        m.run(p.get_program())
+        outs = [e[1] for e in net.trace if e[0] == 'out']
+        res.reached.add('nothing-argument')
+        bad = net.aborted or len(outs) < 3 or outs[1] != outs[0] or outs[-1] != 7 or outs[1] == 7
+        if bad:
+            res.violation('nothing|parameter shows the global', 'printed %r%s: the parameter x should show what `println [g]` shows (first item), and the global stays 7 (last item)\n  script: %s'
+                          % (outs, ' (%s)' % net.aborted if net.aborted else '', text), inputs={'script': text}, replayed=True)
+    world.install_real_mode()
+    res.sample({'scripts': NOTHING_SCRIPTS})
+    res.functions = world.functions_seen()
+    return res
+
+
 def run(tier, seed):
     t0 = time.time()
     cases = build_cases(tier, seed)
     items = [{'case': c, 'timeout_ms': 4000, 'max_paths': 400 if tier == 'quick' else 2000,
               'budget_s': 15 if tier == 'quick' else 90} for c in cases]
-    results, skipped = report.run_pool(common.script_worker, items, budget_s=common.tier_budget(tier, 70, 900))
+    items.append({'nothing': True})
+    results, skipped = report.run_pool(lambda a: nothing_worker(a) if 'nothing' in a else common.script_worker(a), items, budget_s=common.tier_budget(tier, 70, 900))
     return report.finish(
         PROP, tier, seed, 'exploration', results, skipped,
         rule='work item = one routine-centred program shape (parameter sets drawn from a pool colliding with global names, '
